@@ -212,17 +212,30 @@ func caseC12(c *Ctx) {
 			}
 			b.W.SetListener(top)
 			for opi, op := range ref.Log {
-				for i, sp := range specs {
-					if sp.addedAt == opi && opi > 0 {
-						d.AddListener(cbs[i])
-						if comp%4 == 3 {
-							// an outer Dispatch caches the union of its members: rebuild it, as a user would
-							outer := listener.NewDispatch(&d)
-							b.W.SetListener(&outer)
+				add := func() {
+					for i, sp := range specs {
+						if sp.addedAt == opi && opi > 0 {
+							d.AddListener(cbs[i])
+							if comp%4 == 3 {
+								// an outer Dispatch caches the union of its members: rebuild it, as a user would
+								outer := listener.NewDispatch(&d)
+								b.W.SetListener(&outer)
+							}
 						}
 					}
 				}
+				if op.Q && op.Ill == "" && comp%3 == 1 {
+					// added while the query returned by this very batch call is still open: its events are emitted
+					// when the query is closed, so the new member is there in time
+					b.onQueryOpen = func() { add(); b.Cov.N["sublistener_added_while_batch_query_open"]++ }
+				} else {
+					add()
+				}
 				b.Do(op)
+				if b.onQueryOpen != nil {
+					b.onQueryOpen = nil
+					add()
+				}
 				if b.Failed() {
 					ref.fail("subscription.twin.failed", "twin with a Dispatch listener failed: %s", b.Viol[0].Msg)
 					break
